@@ -47,6 +47,7 @@ class RSocketClient(RSocketBase):
         self._transport: Optional[Transport] = None
         self._next_transport = asyncio.Future()
         self._close_requested = False
+        self._keepalive_timeout_handler_running = False
         self._reconnect_task = asyncio.create_task(self._reconnect_listener())
         self._keepalive_task = None
 
@@ -200,10 +201,19 @@ class RSocketClient(RSocketBase):
 
                 if time_since_last_keepalive > self._max_lifetime_period:
                     self._is_server_alive = False
-                    await self._handler.on_keepalive_timeout(
-                        time_since_last_keepalive,
-                        self
-                    )
+                    self._keepalive_timeout_handler_running = True
+
+                    try:
+                        await self._handler.on_keepalive_timeout(
+                            time_since_last_keepalive,
+                            self
+                        )
+                    finally:
+                        self._keepalive_timeout_handler_running = False
+
+                    if self._is_closing:
+                        # the handler closed the connection: the receiver left this task alone (see _receiver_listen)
+                        return
         except asyncio.CancelledError:
             logger().debug('%s: Asyncio task canceled: keepalive_timeout', self._log_identifier())
 
@@ -213,4 +223,7 @@ class RSocketClient(RSocketBase):
         try:
             await super()._receiver_listen()
         finally:
-            await cancel_if_task_exists(keepalive_timeout_task)
+            if not self._keepalive_timeout_handler_running:
+                await cancel_if_task_exists(keepalive_timeout_task)
+            # else: the handler's on_keepalive_timeout is being run by that task and has called close(),
+            # which is waiting for this receiver to stop: waiting for it in turn would never end
